@@ -175,7 +175,7 @@ def run_case(case):
                 old = old + (9, 9)
             ok_expected = (old in spec) and valid_subs(subs)
             try:
-                new = fog.explore(common.vary(old, True), common.vary([common.vary(x, True) for x in subs]))
+                new = fog.explore(common.vary(old, True), common.vary([common.vary(x, True) for x in subs], gen=True))
                 out = str(nfogs)
             except ValidationError:
                 new, out = None, "exn ValidationError"
@@ -223,7 +223,7 @@ def run_case(case):
                 prefixes.append((9, 9, 9, 9, 9))
             ok_expected = all(p in spec for p in prefixes) and len(set(prefixes)) == len(prefixes)
             try:
-                new = fog.mark_all_complete(common.vary([common.vary(x, True) for x in prefixes]))
+                new = fog.mark_all_complete(common.vary([common.vary(x, True) for x in prefixes], gen=True))
                 out = str(nfogs)
             except ValidationError:
                 new, out = None, "exn ValidationError"
